@@ -4,7 +4,7 @@
 Takes the deliverables of a bug-seeding sub-agent (/tmp/wt-<PROP>/_out/m<k>.diff, m<k>_demo.py, m<k>.txt),
 CONFIRMS them independently in a fresh scratch worktree of /repo (outside /repo and /verif):
   1. the diff applies to HEAD and the library imports,
-  2. the 605 stable baseline tests still pass with the change (/tmp/tools/compare_tests.py),
+  2. the 605 stable baseline tests still pass with the change (tools/compare_tests.py),
   3. the demonstration FAILS with the change and PASSES without it,
 then runs the intended property's quick check against a scratch copy with the change applied, and stores
 everything under /verif/seeded/<PROP>-<NAME>/ (patch.diff, demo.py, meta.json).  The scratch worktree is
@@ -69,7 +69,7 @@ def main():
         meta["confirmed"]["demo_fails_with_change"] = d1.returncode != 0
         meta["confirmed"]["demo_output_with_change"] = d1.stdout.decode(errors="replace")[-600:]
         if not args.skip_tests:
-            t = sh(["/tmp/tools/compare_tests.py", wt])
+            t = sh([os.path.join(HERE, "tools", "compare_tests.py"), wt])
             meta["confirmed"]["stable_tests_pass_with_change"] = t.returncode == 0
             meta["confirmed"]["tests_output"] = t.stdout.decode(errors="replace")[-300:]
         shutil.copy(diff, os.path.join(out, "patch.diff"))
